@@ -80,11 +80,12 @@ class SReal(SV):
 class SBytes(SV):
     """bytes (mutable=False) or bytearray (mutable=True): a Seq Int whose elements are 0..255."""
 
-    __slots__ = ("term", "mutable")
+    __slots__ = ("term", "mutable", "wb")
 
     def __init__(self, term, mutable=False):
         self.term = term
         self.mutable = mutable
+        self.wb = None  # write-back hook when this value is an element of a symbolic list
 
     def __repr__(self):
         return f"SBytes({'ba' if self.mutable else 'b'}:{self.term})"
@@ -105,12 +106,14 @@ class SStr(SV):
 class SSeq(SV):
     """list (mutable) / tuple (immutable) of symbolic length over element sort `elem`."""
 
-    __slots__ = ("term", "elem", "mutable")
+    __slots__ = ("term", "elem", "mutable", "wb", "version")
 
     def __init__(self, term, elem, mutable=True):
         self.term = term
         self.elem = elem
         self.mutable = mutable
+        self.wb = None
+        self.version = 0
 
     def __repr__(self):
         return f"SSeq({self.term})"
@@ -405,6 +408,27 @@ class Opaque(Sort):
 
     def unbox(self, t):
         return SOpaque(t, self.kind)
+
+
+def set_term(obj, term, structural=False):
+    """in-place mutation of a mutable symbolic sequence (bytearray / list); propagates to the
+    enclosing symbolic list when the value was obtained as one of its elements."""
+    obj.term = z3.simplify(term)
+    if structural and isinstance(obj, SSeq):
+        obj.version += 1
+    if obj.wb is not None:
+        obj.wb()
+
+
+class ViewList(list):
+    """a 2-list (or n-list) element of a symbolic list; stores write through."""
+
+    wb = None
+
+    def __setitem__(self, i, v):
+        list.__setitem__(self, i, v)
+        if self.wb is not None:
+            self.wb()
 
 
 def sort_of(v):
